@@ -161,7 +161,9 @@ def tmp_worktree(repo: str | Path = ".", ref: str = "HEAD") -> Iterator[Path]:
     repo_name = Path(repo).resolve().name
     normref = _normalize(ref)  # Branch names can contain slashes.
     with TemporaryDirectory(prefix=f"{_WORKTREE_PREFIX}{repo_name}-{normref}-") as tmp_dir:
-        location = os.path.join(tmp_dir, normref)  # noqa: PTH118
+        # The worktree gets a directory of its own below the temporary one, even for references
+        # whose normalized name is empty (`@`): breaking changes locations rely on these two levels.
+        location = os.path.join(tmp_dir, normref or "worktree")  # noqa: PTH118
         tmp_branch = f"griffe-{normref}"  # Temporary branch name must not already exist.
         # If it does exist, it is not ours: it must never be deleted.
         branch_existed = not subprocess.run(
